@@ -11,13 +11,17 @@ ENV_BY_TIER = {"quick": {"NUMBA_DISABLE_JIT": "1"}, "thorough": {}}
 
 RULE = ("star-like tree sequences built directly as tables (40% decorated by gen.exotic: all nodes renumbered, "
         "extra flag bits, mutations above the parents = on no edge, mutation-free sites, allele states, populations, "
-        "unknown mutation times): 2-8 samples at time 0, 1-4 trees, each tree a "
+        "unknown mutation times; half of the multi-tree stars have partially isolated samples: a sample loses its edge on "
+        "an interior interval or up to the end of the sequence, with mutations above it inside and outside the isolated "
+        "stretch, and mutations above the star parents where they are roots or absent -- none of these is on an edge): "
+        "2-8 samples at time 0, 1-4 trees, each tree a "
         "subset (>= 2) of the samples under one non-sample parent (a parent may span several trees), skewed "
         "per-sample mutation counts (0..hundreds) x mutation_rate x max_shape (2..1e4, so both uncapped and "
         "capped) x min_step x 1-10 iterations; run (a) by ExpectationPropagation.iterate directly and (b) through "
         "tsdate.date(variational_gamma, regularise_roots=False, rescaling off by intervals=0 or by iterations=0, numpy-typed "
         "option scalars on 30%, max_shape up to inf). Non-trivial when there is "
-        "at least one mutation; distinct by content hash")
+        "at least one mutation; distinct by content hash. The closed form tallies mutations and spans per parent from the "
+        "tables with the tskit Tree API (a mutation counts only if an edge parent->node covers its position)")
 ASSUME = ["finiteness tests of _valid_gamma/_valid_moments are not modelled (finite inputs only)",
           "the float model reproduces the operation order of rootward_moments/approximate_gamma_mom; compared at "
           "1e-12 relative, the exact rational model at 1e-12 relative"]
@@ -29,8 +33,14 @@ def make_case(rng, capped=None):
     # valid-but-unusual decorations (node renumbering: samples are no longer ids 0..n-1; mutations above
     # the parents, which sit on no edge and must not be counted; flag bits; empty sites; states; populations)
     ts, applied = E.decorate(rng, ts)
+    import tskit
+    offedge = 0
+    tree = tskit.Tree(ts)
+    for site in ts.sites():
+        tree.seek(site.position)
+        offedge += sum(1 for m in site.mutations if tree.edge(m.node) == tskit.NULL)
     capped = rng.random() < 0.35 if capped is None else capped
-    return {"ts": E.ts_dict(E.ts_of(E.ts_dict(ts))), "kind": "star", "exotic": applied,
+    return {"ts": E.ts_dict(E.ts_of(E.ts_dict(ts))), "kind": "star", "exotic": applied, "mutations_on_no_edge": offedge,
             "opts": {"mutation_rate": rng.choice([1e-3, 1e-2, 0.1, 1.0, 0.37]),
                      "singletons_phased": True,
                      "max_shape": rng.choice([2.0, 5.0, 20.0]) if capped else rng.choice([1000.0, 1e4, float("inf")]),
@@ -186,6 +196,9 @@ def run(ctx, model_ok=True):
                 "mutations": len(ts["mutations"]), "opts": c["opts"], "exotic": c.get("exotic", [])}
         for k in c.get("exotic", []):
             ctx.tally("exotic-" + k)
+        ctx.tally("mutations-on-no-edge", c.get("mutations_on_no_edge", 0))
+        if c.get("mutations_on_no_edge"):
+            ctx.tally("inputs-with-isolated-or-root-mutations")
         if isinstance(r, str):
             ctx.case(desc, nontrivial=False, kind="direct/" + r)
             ctx.oracle_fail("assertion:direct", "iterate() raised AssertionError on a star input", {"case": c, "how": "direct"})
